@@ -158,4 +158,101 @@ theorem ruleNewunit_some {b : Line} {g : NewunitGroups} (h : (ruleNewunit b).2 =
         conv => rhs; rw [← hbR, ← hRs]
         simp
 
+/-- sanitised text of rule 5 in terms of the groups -/
+theorem ruleNewunit_text {b : Line} {g : NewunitGroups} (h : (ruleNewunit b).2 = some g) :
+    (ruleNewunit b).1 = g.ws ++ g.opn ++ g.val ++ (g.delim.getD []) ++ g.args1 ++ g.args2 := by
+  unfold ruleNewunit at h ⊢
+  cases ho : openHead b with
+  | none => rw [ho] at h; simp at h
+  | some wo =>
+    obtain ⟨w, o⟩ := wo
+    rw [ho] at h
+    simp only at h ⊢
+    cases hf : findKey (b.drop (w + o)) with
+    | none => rw [hf] at h; simp at h
+    | some sdk =>
+      obtain ⟨s, d, k⟩ := sdk
+      rw [hf] at h
+      simp only at h ⊢
+      split at h
+      · simp at h
+      · rename_i hne
+        simp only [Option.some.injEq] at h
+        subst h
+        simp only [hne, Bool.false_eq_true, if_false]
+
+/-- when something follows the convert group (no newline swallowed) the four groups give back exactly the line -/
+theorem ruleConvert_some_post {b : Line} {nl : Bool} {g : ConvertGroups} (h : (ruleConvert b nl).2.2 = some g)
+    (hp : g.post ≠ []) : reinsertConvert g = b := by
+  obtain ⟨⟨e, he, heq⟩, _⟩ := ruleConvert_some h
+  rcases he with rfl | rfl
+  · simpa using heq
+  · -- the newline is only appended to the convert group when `post` is empty
+    exfalso
+    unfold ruleConvert at h
+    cases ho : openHead b with
+    | none => rw [ho] at h; simp at h
+    | some wo =>
+      obtain ⟨w, o⟩ := wo
+      rw [ho] at h
+      simp only at h
+      cases hf : findConvert (b.drop (w + o)) with
+      | none => rw [hf] at h; simp at h
+      | some sn =>
+        obtain ⟨s, n⟩ := sn
+        rw [hf] at h
+        simp only [Option.some.injEq] at h
+        subst h
+        simp only [reinsertConvert] at heq
+        by_cases hemp : ((List.drop n (List.drop s (List.drop (w + o) b))).isEmpty && nl) = true
+        · simp only [Bool.and_eq_true, List.isEmpty_iff] at hemp
+          exact hp hemp.1
+        · simp only [hemp, Bool.false_eq_true, if_false] at heq
+          have e1 : List.drop s (List.drop (w + o) b) = List.drop (o + s) (List.drop w b) := by
+            simp only [List.drop_drop]; congr 1; omega
+          rw [e1] at heq
+          have hb : b.take w ++ ((b.drop w).take (o + s) ++
+              (((b.drop w).drop (o + s)).take n ++ ((b.drop w).drop (o + s)).drop n)) = b := by
+            rw [List.take_append_drop n, List.take_append_drop (o + s), List.take_append_drop w]
+          have hl := congrArg List.length heq
+          have hl2 := congrArg List.length hb
+          simp only [List.length_append, List.length_cons, List.length_nil] at hl hl2
+          omega
+
+/-! ## continuation branch -/
+
+theorem findSub_lt {pat : Line} : ∀ {S : Line} {i : Nat}, findSub pat S = some i → i ≤ S.length := by
+  intro S
+  induction S with
+  | nil => intro i h; simp only [findSub] at h; split at h <;> simp_all
+  | cons c cs ih =>
+    intro i h
+    simp only [findSub] at h
+    split at h
+    · simp at h; omega
+    · simp only [Option.map_eq_some_iff] at h
+      obtain ⟨j, hj, rfl⟩ := h
+      have := ih hj; simp; omega
+
+/-- if the first occurrence of `part` in `X ++ part ++ T` is the one after `X`, the continuation is `T` right-stripped -/
+theorem contTail_suffix (X part T : Line) (h : findSub part (X ++ part ++ T) = some X.length) :
+    contTail part (X ++ part ++ T) = rstripWs T := by
+  unfold contTail
+  rw [h]
+  simp only
+  congr 1
+  rw [List.append_assoc, ← List.length_append, ← List.append_assoc, List.drop_left]
+
+theorem dropWhile_idem (p : Char → Bool) (l : Line) : (l.dropWhile p).dropWhile p = l.dropWhile p := by
+  induction l with
+  | nil => rfl
+  | cons a l ih =>
+    simp only [List.dropWhile_cons]
+    by_cases ha : p a = true
+    · simp [ha, ih]
+    · simp [ha]
+
+theorem rstripWs_idem (l : Line) : rstripWs (rstripWs l) = rstripWs l := by
+  simp only [rstripWs, List.reverse_reverse, dropWhile_idem]
+
 end LokiModel.C05
